@@ -23,7 +23,7 @@ from mc.core import Acc, rotate
 ID = "C20"
 LEVEL = "model_checking"
 ASSUMPTIONS = [
-    "one generated contract: setUp() stores s = 7, a value at the hash-valued constant slot keccak(0x1234) and creates an invariant target {inc, step}; tests: fail (x == 42), pass (infeasible), write (stores x then reads it), read (s must be 7), hash (keccak(0x1234) computed at run time), slot (reads the constant slot), reread (re-reads calldata after a branch; can never fail), five (same shape; fails exactly for x == 5), two invariant tests at depth 2; addr1/addr2 (vm.addr(1) != vm.addr(2), without and with a branch before it); tshare (TSTORE here, TLOAD of the same slot in the target: per-account transient storage); ext1/ext2 (read the code size / code hash of a symbolic address created in setUp: the alias candidates must be considered afresh by every test); loop (needs three loop iterations; the contract-level annotation says --loop 4) and ann (function-level annotation --loop 1)",
+    "one generated contract: setUp() stores s = 7, a value at the hash-valued constant slot keccak(0x1234) and creates an invariant target {inc, step}; tests: fail (x == 42), pass (infeasible), write (stores x then reads it), read (s must be 7), hash (keccak(0x1234) computed at run time), slot (reads the constant slot), reread (re-reads calldata after a branch; can never fail), five (same shape; fails exactly for x == 5), two invariant tests at depth 2; addr1/addr2 (vm.addr(1) != vm.addr(2), without and with a branch before it); ts (setUp() records block.timestamp then warps: every run starts from the default block); kk (keccak(x) != keccak(x+1) after a branch: each sibling path carries its own hash assumptions); tshare (TSTORE here, TLOAD of the same slot in the target: per-account transient storage); ext1/ext2 (read the code size / code hash of a symbolic address created in setUp: the alias candidates must be considered afresh by every test); loop (needs three loop iterations; the contract-level annotation says --loop 4) and ann (function-level annotation --loop 1)",
     "histories: every ordered subset of the tests up to the bound, every test doubled, the same history run twice in one process, three injective uid() generators (counter, reversed, multiplicative)",
     "normalised result = (exit code, path counts, number of counterexamples, validity flags, replay outcome of every valid counterexample, number of bounded loops); concrete model values are not compared (solvers may return any model), their replay on the reference EVM is",
     "solo results are additionally compared with a brute force over x in {0,1,5,7,42,2^256-1} on mc/refevm.py",
@@ -38,7 +38,9 @@ def contract():
     t = invgen.mk_target("Target0", ["inc", "step", "tget"])
     init = t.creation()
     new_addr = e2e.svm("createAddress(string)", [("push", 32)], retsize=32, mem=0x80, pop=True) + [("push", 0x80), "MLOAD", ("push", 3), "SSTORE"]
-    setup = new_addr + [("push", 7), "PUSH0", "SSTORE", ("push", 42), ("pushn", 32, CSLOT), "SSTORE",
+    # the block of a run starts from the default (timestamp 1) whatever an earlier run warped it to: setUp() records the timestamp, then warps
+    stamp = ["TIMESTAMP", ("push", 4), "SSTORE"] + e2e.vm("warp(uint256)", [("push", 1000)])
+    setup = stamp + new_addr + [("push", 7), "PUSH0", "SSTORE", ("push", 42), ("pushn", 32, CSLOT), "SSTORE",
              ("sizeof", "init0"), ("offsetof", "init0"), ("push", 0x100), "CODECOPY", ("sizeof", "init0"), ("push", 0x100), "PUSH0", "CREATE", ("push", invgen.TARGET_SLOT), "SSTORE",
              "STOP", ("data", "init0", init)]
     F = {"setUp()": setup}
@@ -73,6 +75,10 @@ def contract():
 
     F["check_addr1(uint256)"] = e2e.if_then(addr_ne(), e2e.panic(1), "a") + ["STOP"]
     F["check_addr2(uint256)"] = e2e.if_then(X + ["ISZERO"], [], "b") + e2e.if_then(addr_ne(), e2e.panic(1), "a") + ["STOP"]
+    F["check_ts(uint256)"] = e2e.if_then([("push", 4), "SLOAD", ("push", 1), "EQ", "ISZERO"], e2e.panic(1), "a") + e2e.if_then(["TIMESTAMP", ("push", 1000), "EQ", "ISZERO"], e2e.panic(1), "b") + ["STOP"]
+    # if (x < 100) {} ; assert(keccak(x) != keccak(x + 1))  -- the hashes are first computed after the branch: each sibling needs its own injectivity assumptions
+    kk = X + ["PUSH0", "MSTORE", ("push", 32), "PUSH0", "SHA3"] + X + [("push", 1), "ADD", "PUSH0", "MSTORE", ("push", 32), "PUSH0", "SHA3", "EQ"]
+    F["check_kk(uint256)"] = e2e.if_then(X + [("push", 100), "GT"], [], "b") + e2e.if_then(kk, e2e.panic(1), "a") + ["STOP"]
     # a symbolic address created in setUp(): each test that touches it must consider every account it may denote
     A3 = [("push", 3), "SLOAD"]
     F["check_ext1(uint256)"] = e2e.if_then(A3 + ["EXTCODESIZE", ("push", len(t.runtime())), "EQ"], e2e.panic(1), "a") + ["STOP"]  # fails iff a is the target
@@ -81,11 +87,11 @@ def contract():
 
 
 TESTS = ["check_fail(uint256)", "check_pass(uint256)", "check_write(uint256)", "check_read(uint256)", "check_hash(uint256)", "check_slot(uint256)",
-         "check_reread(uint256)", "check_five(uint256)", "invariant_a()", "invariant_b()", "check_loop(uint256)", "check_ann(uint256)", "check_ext1(uint256)", "check_ext2(uint256)", "check_tshare(uint256)", "check_addr1(uint256)", "check_addr2(uint256)"]
+         "check_reread(uint256)", "check_five(uint256)", "invariant_a()", "invariant_b()", "check_loop(uint256)", "check_ann(uint256)", "check_ext1(uint256)", "check_ext2(uint256)", "check_tshare(uint256)", "check_addr1(uint256)", "check_addr2(uint256)", "check_ts(uint256)", "check_kk(uint256)"]
 # ground truth: the inputs (of the brute-force domain) that make each regular test fail
 DOM = [0, 1, 5, 7, 42, 2**256 - 1]
 EXPECT_FAIL = {"check_fail(uint256)": [42], "check_pass(uint256)": [], "check_write(uint256)": [5], "check_read(uint256)": [], "check_hash(uint256)": [1],
-               "check_slot(uint256)": [], "check_reread(uint256)": [], "check_five(uint256)": [5], "check_loop(uint256)": [7, 2**256 - 1], "check_ann(uint256)": [1], "check_tshare(uint256)": [], "check_addr1(uint256)": [], "check_addr2(uint256)": []}
+               "check_slot(uint256)": [], "check_reread(uint256)": [], "check_five(uint256)": [5], "check_loop(uint256)": [7, 2**256 - 1], "check_ann(uint256)": [1], "check_tshare(uint256)": [], "check_addr1(uint256)": [], "check_addr2(uint256)": [], "check_ts(uint256)": [], "check_kk(uint256)": []}
 EXPECT_EXIT = {"check_ext1(uint256)": 1, "check_ext2(uint256)": 1}  # decided by the symbolic address of setUp(), not by x
 EXPECT_INV = {"invariant_a()": 1, "invariant_b()": 0}  # at depth 2: s reaches 2 (inc, inc) -> a fails; 5 needs inc, inc, step -> b passes
 
